@@ -739,6 +739,35 @@ def rule_rangeend(ctx, rep, rid="R-C05-rangeend"):
                         adv = True
                     if si and si["kind"] == "bool" and si["subject"][0] == "bin" and si["subject"][1] == "Eq" and 10 in (panics_int(b, si["subject"][2]), panics_int(b, si["subject"][3])):
                         adv = True
+        if not adv and le is not None:
+            # the same scan written as `chars().fold((line, col), |(line, col), ch| if ch == '\n' { (line + 1, 0) } else { .. })`
+            d = b.single_def(le)
+            if d and d[0] == "call" and (d[2].u or d[2].callee or "").split("::")[-1] in ("fold", "try_fold") and len(d[2].args) > 2:
+                cp = op_place(d[2].args[2])
+                cd = b.single_def(cp[0]) if cp is not None and not cp[1] else None
+                cbs = []
+                if cd and cd[0] == "stmt" and cd[3][0] == "agg" and isinstance(cd[3][1], dict) and cd[3][1].get("k") == "closure":
+                    cbs = ctx.prog.get(norm(cd[3][1]["def"]))
+                elif cd and cd[0] == "stmt" and cd[3][0] in ("use", "ref"):
+                    # a closure bound to a variable and used for both folds
+                    q = op_place(cd[3][1]) if cd[3][0] == "use" else cd[3][2]
+                    qd = b.single_def(b.root(q)[0]) if q is not None else None
+                    if qd and qd[0] == "stmt" and qd[3][0] == "agg" and isinstance(qd[3][1], dict) and qd[3][1].get("k") == "closure":
+                        cbs = ctx.prog.get(norm(qd[3][1]["def"]))
+                else:
+                    c0 = b.const_of(d[2].args[2])
+                    if c0 is not None and len(c0) > 3 and isinstance(c0[3], dict) and "rfn" in c0[3]:
+                        cbs = ctx.prog.get(norm(c0[3]["rfn"]))
+                for cb in cbs:
+                    cdom = cb.dominators()
+                    for i, j, st in cb.all_stmts():
+                        if st[0] == "=" and st[2][0] == "bin" and st[2][1].startswith("Add") and 1 in (panics_int(cb, st[2][2]), panics_int(cb, st[2][3])):
+                            for d_ in cdom.get(i, set()):
+                                si = switch_info(cb, d_)
+                                if si and si["kind"] == "int" and any("10" in [str(x) for x in labs] for labs in si["edges"].values()):
+                                    adv = True
+                                if si and si["kind"] == "bool" and si["subject"][0] == "bin" and si["subject"][1] == "Eq" and 10 in (panics_int(cb, si["subject"][2]), panics_int(cb, si["subject"][3])):
+                                    adv = True
         if ls is not None and ls == le:
             r.finding(inst + "|end-on-start-line", loc_str(b.f, rc.loc), "the end position uses the start's line: a label that contains a line break (a call written over two lines, an "
                       "unterminated comment) gets an end past the end of its first line - a position that does not exist in the document")
